@@ -2,9 +2,17 @@ package bytesgen
 
 import (
 	"os"
+	"runtime/debug"
 	"sync"
 	"syscall"
 )
+
+// MaxStack is the cap put on the stack of every goroutine of a worker child. The
+// Go default is 1 GB, which the recursive parser, type checker and emitter exhaust
+// only with sources of several hundred kilobytes that take about half a minute to
+// die; with 64 MiB the same unbounded recursion shows at a depth about 16 times
+// smaller, in a second or two.
+const MaxStack = 64 << 20
 
 // AddressSpaceLimit is the cap put on the address space of a worker child.
 const AddressSpaceLimit = 8 << 30
@@ -20,3 +28,6 @@ var LimitAddressSpace = sync.OnceFunc(func() {
 	lim := syscall.Rlimit{Cur: AddressSpaceLimit, Max: AddressSpaceLimit}
 	syscall.Setrlimit(syscall.RLIMIT_AS, &lim)
 })
+
+// LimitStack caps the goroutine stacks of the calling process to MaxStack.
+var LimitStack = sync.OnceFunc(func() { debug.SetMaxStack(MaxStack) })
